@@ -267,6 +267,7 @@ def visit(
                             break  # the root node itself was skipped
                         path_pop()
                         continue
+                    result = None  # no action when leaving (keep edits of children)
 
                 elif result is not None:
                     edits.append((key, result))
